@@ -2,6 +2,8 @@ import DimodProofs.SymTree
 import DimodProofs.SymInfo
 import DimodProofs.SymStore
 import DimodProofs.SymStoreMore
+import DimodProofs.SymCmp
+import DimodProofs.SymGen
 
 /-! # C06 — symbolic arithmetic on models is pointwise arithmetic on energies
 
@@ -204,5 +206,347 @@ example : (match build (.add (.var .binary (.str "i") 1 none none) (.var .intege
 example :
     (match build (.pow (.add (.var .integer (.str "i") 1 (some 0) none) (.const 1)) 2) with
      | .ok v => v.eval (fun _ => 3) | .error _ => (0 : Rat)) = (16 : Rat) := by decide +kernel
+
+
+/-! ## round 7: one theorem per operator dispatch path, two-operand comparisons, stored constraints,
+       operands of rejected operators (`DimodModel/SymCmp.lean`, `DimodProofs/SymCmp.lean`) -/
+
+/-- **`+` on two models, every dispatch path** (`BQM.__add__(BQM)` same vartype → `copy().update`; different vartypes →
+    `from_bqm(self) += from_bqm(other)`; `BQM.__add__(QM)` → `from_bqm(self) + other`; `BQM.__radd__(QM)` →
+    `other.copy() += from_bqm(self)`; `QM.__add__(QM)`): whenever the operator returns, the result's energy is the sum of the
+    operands' energies at EVERY sample (no domain hypothesis), and the result is a QuadraticModel exactly when one operand
+    is one or the two BQMs differ in vartype with a non-empty right operand. -/
+theorem add_dispatch_eval (a b m : Model) (x : Label → Rat) (h : mAdd a b = .ok m) :
+    m.eval x = a.eval x + b.eval x ∧ m.isQM = (a.isQM || b.isQM || bqmDiffer a b) :=
+  ⟨mAdd_eval a b m x h, mAdd_class a b m h⟩
+
+/-- **`-` on two models, every dispatch path** (`__sub__`, `__rsub__`, the promoting forms): energies subtract at every
+    sample; same class rule as `+` -/
+theorem sub_dispatch_eval (a b m : Model) (x : Label → Rat) (h : mSub a b = .ok m) :
+    m.eval x = a.eval x - b.eval x ∧ m.isQM = (a.isQM || b.isQM || bqmDiffer a b) :=
+  mSub_eval_class a b m x h
+
+/-- **model with a number, every form** (`m + q`, `q + m` (`__radd__`), `m - q`, `q - m` (`__rsub__`), `m * q`, `q * m`
+    (`__rmul__`), `-m`, `m / q`): a model of the same class whose energy is that arithmetic at every sample; `m / 0`
+    raises ZeroDivisionError -/
+theorem number_dispatch_eval (m : Model) (q : Rat) (x : Label → Rat) :
+    (∃ r, valAdd (.mdl m) (.num q) = .ok (.mdl r) ∧ r.eval x = m.eval x + q ∧ r.isQM = m.isQM ∧ r.bvt = m.bvt) ∧
+    (∃ r, valAdd (.num q) (.mdl m) = .ok (.mdl r) ∧ r.eval x = q + m.eval x ∧ r.isQM = m.isQM ∧ r.bvt = m.bvt) ∧
+    (∃ r, valSub (.mdl m) (.num q) = .ok (.mdl r) ∧ r.eval x = m.eval x - q ∧ r.isQM = m.isQM ∧ r.bvt = m.bvt) ∧
+    (∃ r, valSub (.num q) (.mdl m) = .ok (.mdl r) ∧ r.eval x = q - m.eval x ∧ r.isQM = m.isQM ∧ r.bvt = m.bvt) ∧
+    (∃ r, valMul (.mdl m) (.num q) = .ok (.mdl r) ∧ r.eval x = m.eval x * q ∧ r.isQM = m.isQM ∧ r.bvt = m.bvt) ∧
+    (∃ r, valMul (.num q) (.mdl m) = .ok (.mdl r) ∧ r.eval x = q * m.eval x ∧ r.isQM = m.isQM ∧ r.bvt = m.bvt) ∧
+    (∃ r, valNeg (.mdl m) = .ok (.mdl r) ∧ r.eval x = - m.eval x ∧ r.isQM = m.isQM ∧ r.bvt = m.bvt) ∧
+    (q ≠ 0 → ∃ r, valDiv (.mdl m) q = .ok (.mdl r) ∧ r.eval x = m.eval x / q ∧ r.isQM = m.isQM ∧ r.bvt = m.bvt) ∧
+    valDiv (.mdl m) 0 = .error .zerodiv := by
+  refine ⟨⟨m.addOffset q, rfl, eval_addOffset m q x, rfl, rfl⟩,
+          ⟨m.addOffset q, rfl, by rw [eval_addOffset]; ring, rfl, rfl⟩,
+          ⟨m.addOffset (-q), rfl, by rw [eval_addOffset]; ring, rfl, rfl⟩,
+          ⟨(m.scale (-1)).addOffset q, rfl, by rw [eval_addOffset, eval_scale]; ring, rfl, rfl⟩,
+          ⟨m.scale q, rfl, by rw [eval_scale]; ring, rfl, rfl⟩,
+          ⟨m.scale q, rfl, eval_scale m q x, rfl, rfl⟩,
+          ⟨m.scale (-1), rfl, by rw [eval_scale]; ring, rfl, rfl⟩,
+          fun hq => ⟨m.scale (1 / q), by simp [valDiv, hq], by rw [eval_scale]; ring, rfl, rfl⟩,
+          by simp [valDiv]⟩
+
+/-- **the repeated-label cases of the product loops** (`u == v` in `QuadraticModel.__mul__` / `BinaryQuadraticModel.__mul__`):
+    a BINARY label contributes to the LINEAR bias (`x*x = x`), a SPIN label to the OFFSET (`s*s = 1`), an INTEGER or REAL
+    label gets a SELF-LOOP (a true square; for REAL `add_quadratic` then raises) -/
+theorem square_dispatch (u v : Var) (acc : Model) (h : u.l = v.l) :
+    (u.info.vt = .binary → qmMulStep u v acc = addLinear acc u.l (u.bias * v.bias)) ∧
+    (u.info.vt = .spin → qmMulStep u v acc = .ok (acc.addOffset (u.bias * v.bias))) ∧
+    (u.info.vt = .integer ∨ u.info.vt = .real → qmMulStep u v acc = addQuadratic acc u.l u.l (u.bias * v.bias)) ∧
+    bqmMulStep .binary u v acc = addLinear acc u.l (u.bias * v.bias) ∧
+    bqmMulStep .spin u v acc = .ok (acc.addOffset (u.bias * v.bias)) := by
+  refine ⟨fun hk => by simp [qmMulStep, h, hk], fun hk => by simp [qmMulStep, h, hk],
+          fun hk => by rcases hk with hk | hk <;> simp [qmMulStep, h, hk], by simp [bqmMulStep, h], by simp [bqmMulStep, h]⟩
+
+/-- … and the self-loop is a true square in the energy, the linear/offset forms are `b·x` / `b` -/
+theorem square_dispatch_eval (acc acc' : Model) (l : Label) (b : Rat) (x : Label → Rat) :
+    (addQuadratic acc l l b = .ok acc' → acc'.eval x = acc.eval x + b * x l * x l) ∧
+    (addLinear acc l b = .ok acc' → acc'.eval x = acc.eval x + b * x l) ∧
+    (acc.addOffset b).eval x = acc.eval x + b :=
+  ⟨eval_addQuadratic acc acc' l l b x, eval_addLinear acc acc' l b x, eval_addOffset acc b x⟩
+
+/-- **comparison of two arbitrary operands** `a ⋈ b` (`__le__`, `__ge__`, `__eq__` and Python's reflection): whenever a
+    `Comparison` object comes out, then at every sample respecting the leaves' domains EITHER its sense is the written one and
+    its activity `lhs(x) − rhs` is `a(x) − b(x)`, OR (reflected: the number was on the left) its sense is the flipped one and
+    its activity is `b(x) − a(x)`; in both cases it holds exactly when the written comparison holds between the energies. -/
+theorem comparison_two_operands (s : Sense) (a b : SymExpr) (k : Cmp) (x : Label → Rat) (h : buildCmp2 s a b = .ok (some k))
+    (hxa : ∀ l kd, a.HasLeaf l kd → InDom kd (x l)) (hxb : ∀ l kd, b.HasLeaf l kd → InDom kd (x l)) :
+    ((k.sense = s ∧ k.lhs.eval x - k.rhs = a.eval x - b.eval x) ∨
+     (k.sense = s.flip ∧ k.lhs.eval x - k.rhs = -(a.eval x - b.eval x))) ∧
+    (k.holds x ↔ s.rel (a.eval x) (b.eval x)) :=
+  buildCmp2_spec s a b k x h hxa hxb
+
+/-- non-vacuity of `comparison_two_operands`: `3 >= 2·x + 1` over a binary `x` is `Le(2x + 1, 3)` -/
+example :
+    (match buildCmp2 .ge (.const 3) (.add (.var .binary (.str "x") 2 none none) (.const 1)) with
+     | .ok (some k) => decide (k.sense = .le) && decide (k.rhs = 3) && decide (k.lhs.eval (fun _ => 1) = 3) | _ => false) = true := by
+  decide +kernel
+
+/-- **no terms are moved across**: with models (or expression views) on BOTH sides `<=`/`>=` raise TypeError and `==` is a
+    plain bool (`is_equal` / identity) — this version of dimod builds a `Comparison` only against a number -/
+theorem comparison_models_refused (s : Sense) (a b : SymExpr) (va vb : Val) (ha : build a = .ok va) (hb : build b = .ok vb)
+    (hna : ∀ q, va ≠ .num q) (hnb : ∀ q, vb ≠ .num q) :
+    buildCmp2 s a b = if s = .eq then .ok none else .error .type := by
+  simp only [buildCmp2, ha, hb]
+  exact cmpVals_refused s va vb hna hnb
+
+/-- non-vacuity: `Binary('x') <= Integer('i')` meets the hypotheses -/
+example : buildCmp2 .le (.var .binary (.str "x") 1 none none) (.var .integer (.str "i") 1 (some 0) (some 3)) = .error .type := by
+  apply comparison_models_refused .le _ _ _ _ rfl rfl <;> intro q hq <;> cases hq
+
+/-- the two-operand comparison extends the six number forms of `buildCmp` -/
+theorem comparison2_extends (e : SymExpr) (q : Rat) :
+    buildCmp (.le e q) = buildCmp2 .le e (.const q) ∧ buildCmp (.ge e q) = buildCmp2 .ge e (.const q) ∧
+    buildCmp (.eq e q) = buildCmp2 .eq e (.const q) ∧ buildCmp (.rle q e) = buildCmp2 .le (.const q) e ∧
+    buildCmp (.rge q e) = buildCmp2 .ge (.const q) e ∧ buildCmp (.req q e) = buildCmp2 .eq (.const q) e := by
+  refine ⟨?_, ?_, ?_, ?_, ?_, ?_⟩ <;>
+    (simp only [buildCmp, buildCmp2, build, SymCmp.expr, SymCmp.num, SymCmp.sense, SymCmp.isEq]
+     cases build e with
+     | error _ => rfl
+     | ok v => cases v <;> rfl)
+
+/-- **the constraint a CQM stores for a comparison** (`add_constraint(comp)` → `add_constraint_from_model(comp.lhs,
+    comp.sense, rhs=comp.rhs, copy=True)`): its activity at every sample is `lhs(x) − rhs` of the comparison (the offset
+    stays on the left), sense, right-hand side and variables (with types and bounds) are preserved, and it is satisfied
+    exactly when the comparison holds -/
+theorem constraint_from_comparison (k : Cmp) (x : Label → Rat) :
+    (conOfCmp k).activity x = k.lhs.eval x - k.rhs ∧ (conOfCmp k).sense = k.sense ∧ (conOfCmp k).rhs = k.rhs ∧
+    (conOfCmp k).lhs.vars = k.lhs.vars ∧ ((conOfCmp k).holds x ↔ k.holds x) := by
+  refine ⟨rfl, rfl, rfl, rfl, ?_⟩
+  obtain ⟨l, s, r⟩ := k
+  cases s <;> exact Iff.rfl
+
+/-- **comparisons leave their operands unchanged**: building the `Comparison` mutates nothing, adding it to a CQM
+    allocates the copy -/
+theorem comparison_operands_unchanged (h h' : Store) (a : Nat) (p : List Instr)
+    (hp : p = progCompare ∨ p = progAddConstraint a) (he : exec h p = .ok h') :
+    ∀ j, j < h.length → h'[j]? = h[j]? := by
+  rcases hp with rfl | rfl
+  · exact exec_frame _ h h' h.length (Nat.le_refl _) (compare_writes_fresh a h.length).1 he
+  · exact exec_frame _ h h' h.length (Nat.le_refl _) (compare_writes_fresh a h.length).2 he
+
+/-- **operands_unchanged, also when the operator is REJECTED**: run the body of any non-in-place operator (all of
+    `operands_unchanged` and `operands_unchanged_more`, and the comparison forms) in any store; whether it returns or raises
+    half-way (conflicting vartype/bounds for one label in `update`, a product of non-linear models, …), every object that
+    existed before the call — both operands — is exactly as it was at the moment the call ends; `execT` is `exec` with the
+    store at the moment of the exception kept. -/
+theorem operands_unchanged_when_rejected (h : Store) (a b : Nat) (rest : List Nat) (q : Rat) (p : List Instr)
+    (hp : p ∈ nonInplacePrograms a b q h.length ∨ p ∈ moreNonInplacePrograms a b rest q h.length ∨
+          p = progCompare ∨ p = progAddConstraint a) :
+    (∀ j, j < h.length → (execT h p).1[j]? = h[j]?) ∧
+    exec h p = (match (execT h p).2 with | none => .ok (execT h p).1 | some e => .error e) := by
+  refine ⟨?_, execT_exec p h⟩
+  have hw : WritesFresh h.length p = true := by
+    rcases hp with hp | hp | rfl | rfl
+    · exact nonInplace_writes_fresh a b q h.length p hp
+    · exact more_write_fresh a b rest q h.length p hp
+    · exact (compare_writes_fresh a h.length).1
+    · exact (compare_writes_fresh a h.length).2
+  exact execT_frame p h h.length (Nat.le_refl _) hw
+
+/-- non-vacuity: `Integer('i', upper_bound=5) - Integer('i', upper_bound=7)` (program `progSubSame`) is rejected with
+    ValueError after the copy was negated — a case where `operands_unchanged` says nothing and this theorem does -/
+example :
+    (execT [⟨true, .binary, [⟨.str "i", ⟨.integer, 0, 5⟩, 1⟩], [], 0⟩, ⟨true, .binary, [⟨.str "i", ⟨.integer, 0, 7⟩, 1⟩], [], 0⟩]
+       (progSubSame 0 1 2)).2 = some .value := by decide +kernel
+
+
+/-! ### `x * x` in closed form (single-variable operands, any label, any biases) -/
+
+/-- `Binary(l, b) * Binary(l, c)` is the LINEAR model `b·c·x` (a BINARY BQM, no interaction, no offset) -/
+theorem square_binary_is_linear (l : Label) (b c : Rat) :
+    mMul ⟨false, .binary, [⟨l, bqmInfo .binary, b⟩], [], 0⟩ ⟨false, .binary, [⟨l, bqmInfo .binary, c⟩], [], 0⟩
+      = .ok ⟨false, .binary, [⟨l, bqmInfo .binary, b * c⟩], [], 0⟩ := by
+  simp [mMul, Model.isLinear, bqmDiffer, bqmMulSame, mulOuter, mulInner, bqmMulStep, addLinear, Model.has, findVar, emptyBQM,
+        mulTail, Model.addOffset, bumpVar]
+
+/-- `Spin(l, b) * Spin(l, c)` is the CONSTANT `b·c` (a SPIN BQM that still lists `l`, with bias 0) -/
+theorem square_spin_is_constant (l : Label) (b c : Rat) :
+    mMul ⟨false, .spin, [⟨l, bqmInfo .spin, b⟩], [], 0⟩ ⟨false, .spin, [⟨l, bqmInfo .spin, c⟩], [], 0⟩
+      = .ok ⟨false, .spin, [⟨l, bqmInfo .spin, 0⟩], [], b * c⟩ := by
+  simp [mMul, Model.isLinear, bqmDiffer, bqmMulSame, mulOuter, mulInner, bqmMulStep, addLinear, Model.has, findVar, emptyBQM,
+        mulTail, Model.addOffset, bumpVar]
+
+/-- `Integer(l, b, lo, hi) * Integer(l, c, lo, hi)` is the SELF-LOOP `b·c·i·i` (bounds kept, linear bias 0) -/
+theorem square_integer_is_selfloop (l : Label) (b c lo hi : Rat) :
+    mMul ⟨true, .binary, [⟨l, ⟨.integer, lo, hi⟩, b⟩], [], 0⟩ ⟨true, .binary, [⟨l, ⟨.integer, lo, hi⟩, c⟩], [], 0⟩
+      = .ok ⟨true, .binary, [⟨l, ⟨.integer, lo, hi⟩, 0⟩], [⟨l, l, b * c⟩], 0⟩ := by
+  simp [mMul, qmMul, Model.isLinear, addVariables, addVariable, emptyQM, mulOuter, mulInner, qmMulStep, addLinear, addQuadratic, vtOf,
+        Model.has, findVar, mulTail, Model.addOffset, bumpVar, bumpQuad]
+
+/-- `Real(l, b) * Real(l, c)`: REAL variables take no interactions, `add_quadratic` raises ValueError -/
+theorem square_real_rejected (l : Label) (b c lo hi : Rat) :
+    mMul ⟨true, .binary, [⟨l, ⟨.real, lo, hi⟩, b⟩], [], 0⟩ ⟨true, .binary, [⟨l, ⟨.real, lo, hi⟩, c⟩], [], 0⟩
+      = .error .value := by
+  simp [mMul, qmMul, Model.isLinear, addVariables, addVariable, emptyQM, mulOuter, mulInner, qmMulStep, addQuadratic, vtOf, findVar]
+
+
+/-! ## round 7: theorems over the operator programs GENERATED from the source
+
+`Generated/SymPrograms.lean` is rewritten on every run by `harness/translators/sym_programs.py`: the body of every operator
+overload of `BinaryQuadraticModel`, `QuadraticModel` and the CQM expression views, partially evaluated per class of the
+operands (Python's `__op__` / `__rop__` / `__iop__` dispatch inlined) into a program over `Sym.Instr`.  The theorems below
+quantify over those generated programs, so a change of an operator body in the source changes their subject. -/
+
+/-- **operands_unchanged over the generated bodies**: every non-in-place operator form of the source (`+ - *` over
+    BQM / QM / expression view / number in every combination incl. the reflected ones, unary `-`, `/ q`, `** 2`) and every
+    in-place form that falls back on a binary operator writes only to objects it allocated: whatever store it runs in, and
+    whether it returns or is rejected half-way, every object that existed before — both operands — is as it was. -/
+theorem generated_operands_unchanged (h : Store) (a b : Nat) (q : Rat) (p : List Instr)
+    (hp : p ∈ Generated.nonInplace a b q h.length ∨ p ∈ Generated.inplaceFallback a b q h.length) :
+    (∀ j, j < h.length → (execT h p).1[j]? = h[j]?) ∧
+    (∀ h', exec h p = .ok h' → ∀ j, j < h.length → h'[j]? = h[j]?) := by
+  have hw : WritesFresh h.length p = true :=
+    List.all_eq_true.mp (generated_write_fresh a b q h.length) p (List.mem_append.mpr hp)
+  exact ⟨execT_frame p h h.length (Nat.le_refl _) hw, fun h' he => exec_frame p h h' h.length (Nat.le_refl _) hw he⟩
+
+/-- **the mutating in-place forms touch their left operand only** (`+=`, `-=`, `*= q`, `/= q` when `__iop__` accepts): every
+    other existing object — in particular the right operand when it is another object — is as it was, also when the
+    operator is rejected half-way (the left operand may then be left modified: `scale(-1)` before a rejected `update`) -/
+theorem generated_inplace_touches_left_only (h : Store) (a b : Nat) (q : Rat) (p : List Instr)
+    (hp : p ∈ Generated.inplaceMutating a b q h.length) (j : Nat) (hj : j < h.length) (hja : j ≠ a) :
+    (execT h p).1[j]? = h[j]? :=
+  execT_frame_ne p h j hj (noWrite_of_targets p a j hja (List.all_eq_true.mp (generated_inplace_targets a b q h.length) p hp))
+
+/-- non-vacuity and sharpness: `Integer('i', ub=5) -= Integer('i', ub=7)` is rejected and leaves the LEFT operand negated
+    (as the code does), the right one untouched -/
+example :
+    (match execT [⟨true, .binary, [⟨.str "i", ⟨.integer, 0, 5⟩, 1⟩], [], 0⟩, ⟨true, .binary, [⟨.str "i", ⟨.integer, 0, 7⟩, 1⟩], [], 0⟩]
+       (Generated.qm_isub_qm 0 1 0 2) with
+     | (s, e) => decide (e = some .value) && (s.map fun m => m.vars.map (·.bias)) == [[-1], [1]]) = true := by decide +kernel
+
+/-- **the generated bodies are the modelled programs** of `DimodModel/SymStore.lean` (so `add_program_refines`, `sub_programs_refine`,
+    `scalar_and_mul_programs_refine`, `add_promoting_programs_refine`, `mul_promoting_programs_refine` and
+    `quicksum_program_refines` speak about the source's own operator bodies): they compute `mAdd` / `mSub` / `mMul` /
+    `scale` / `addOffset` of the operands.  (The views' operators with a BQM operand and `BQM * BQM` of different vartypes are
+    generated with the source's exact allocation order, which differs from the hand-written `progViewAddBqm`, `progViewSubBqm`,
+    `progMulPromoteBoth`; they are covered by `generated_operands_unchanged` and `generated_mul_differ_refines`.) -/
+theorem generated_programs_are_modelled (a b : Nat) (q : Rat) (n : Nat) :
+    Generated.bqm_add_bqm_same a b q n = progAddSame a b n ∧
+    Generated.qm_add_qm a b q n = progAddSame a b n ∧
+    Generated.bqm_add_bqm_differ a b q n = progAddPromoteBoth a b n ∧
+    Generated.bqm_add_qm a b q n = progAddPromoteLeft a b n ∧
+    Generated.qm_add_bqm a b q n = progAddPromoteRight a b n ∧
+    Generated.bqm_sub_bqm_same a b q n = progSubSame a b n ∧
+    Generated.qm_sub_qm a b q n = progSubSame a b n ∧
+    Generated.bqm_sub_bqm_differ a b q n = progSubPromoteBoth a b n ∧
+    Generated.bqm_sub_qm a b q n = progSubPromoteLeft a b n ∧
+    Generated.qm_sub_bqm a b q n = progSubPromoteRight a b n ∧
+    Generated.bqm_add_num a b q n = progAddNum a q n ∧
+    Generated.qm_add_num a b q n = progAddNum a q n ∧
+    Generated.num_add_bqm a b q n = progAddNum a q n ∧
+    Generated.num_add_qm a b q n = progAddNum a q n ∧
+    Generated.bqm_sub_num a b q n = progAddNum a (-q) n ∧
+    Generated.qm_sub_num a b q n = progAddNum a (-q) n ∧
+    Generated.num_sub_bqm a b q n = progRsubNum a q n ∧
+    Generated.num_sub_qm a b q n = progRsubNum a q n ∧
+    Generated.bqm_mul_num a b q n = progScale a q n ∧
+    Generated.qm_mul_num a b q n = progScale a q n ∧
+    Generated.num_mul_bqm a b q n = progScale a q n ∧
+    Generated.num_mul_qm a b q n = progScale a q n ∧
+    Generated.bqm_neg a b q n = progScale a (-1) n ∧
+    Generated.qm_neg a b q n = progScale a (-1) n ∧
+    Generated.bqm_truediv_num a b q n = progScale a (1 / q) n ∧
+    Generated.qm_truediv_num a b q n = progScale a (1 / q) n ∧
+    Generated.bqm_mul_bqm_same a b q n = progMulSame a b n ∧
+    Generated.qm_mul_qm a b q n = progMulSame a b n ∧
+    Generated.bqm_mul_qm a b q n = progMulPromoteLeft a b n ∧
+    Generated.qm_mul_bqm a b q n = progMulPromoteRight a b n ∧
+    Generated.bqm_pow_2 a b q n = progPow2 a n ∧
+    Generated.qm_pow_2 a b q n = progPow2 a n ∧
+    Generated.view_add_qm a b q n = progViewAdd a b n ∧
+    Generated.view_sub_qm a b q n = progViewSub a b n ∧
+    Generated.view_add_num a b q n = progViewAddNum a q n ∧
+    Generated.view_sub_num a b q n = progViewAddNum a (-q) n ∧
+    Generated.qm_add_view a b q n = progViewRadd b a n ∧
+    Generated.qm_sub_view a b q n = progViewRsub b a n ∧
+    Generated.num_sub_view a b q n = progViewRsubNum a q n ∧
+    Generated.bqm_iadd_bqm_same a b q n = progIaddSame a b ∧
+    Generated.qm_iadd_qm a b q n = progIaddSame a b ∧
+    Generated.bqm_isub_bqm_same a b q n = progIsubSame a b ∧
+    Generated.qm_isub_qm a b q n = progIsubSame a b := by
+  (repeat' apply And.intro) <;> rfl
+
+/-- the generated `BQM * BQM` of different vartypes computes `mMul` into the object it returns -/
+theorem generated_mul_differ_refines (h : Store) (a b : Nat) (q : Rat) (x y : Model) (ha : h[a]? = some x) (hb : h[b]? = some y)
+    (hx : x.isQM = false) (hy : y.isQM = false) (hd : bqmDiffer x y = true) (hl : x.isLinear = true ∧ y.isLinear = true) :
+    (exec h (Generated.bqm_mul_bqm_differ a b q h.length)).map (fun h' => h'[Generated.bqm_mul_bqm_differResult a b h.length]?)
+      = (mMul x y).map some :=
+  exec_gen_mulDiffer h a b q x y ha hb hx hy hd hl
+
+/-- the operator forms no class accepts (TypeError) are exactly the ones `valMul` / `valNeg` / `valDiv` / `valPow` refuse:
+    every product, negation, division and power involving an expression view -/
+theorem generated_refused_are_the_view_forms :
+    Generated.refused = ["bqm_mul_view", "bqm_imul_view", "qm_mul_view", "qm_imul_view", "view_mul_bqm", "view_imul_bqm",
+      "view_mul_qm", "view_imul_qm", "view_mul_view", "view_imul_view", "view_mul_num", "view_imul_num", "num_mul_view",
+      "view_neg", "view_truediv_num", "view_itruediv_num", "view_pow_2"] ∧
+    (∀ o m v, valMul (.view o m) v = .error .type) ∧ (∀ o m v, valMul v (.view o m) = .error .type) ∧
+    (∀ o m, valNeg (.view o m) = .error .type) ∧ (∀ o m q, valDiv (.view o m) q = .error .type) ∧
+    (∀ o m n, valPow (.view o m) n = .error .type) := by
+  refine ⟨rfl, ?_, ?_, fun _ _ => rfl, ?_, fun _ _ _ => rfl⟩
+  · intro o m v; cases v <;> rfl
+  · intro o m v; cases v <;> rfl
+  · intro o m q; by_cases hq : q = 0 <;> simp [valDiv, hq]
+
+
+/-- **the product loops of the source are the modelled ones**: the case analysis of the inner loops of `QuadraticModel.__mul__`
+    and `BinaryQuadraticModel.__mul__` (generated from the source; the surrounding skeleton is checked literally by the
+    translator) is `qmMulStep` / `bqmMulStep`, so `mul_linear_eval`, `square_dispatch` and the closed forms of `x*x` speak
+    about the loops as they are written -/
+theorem generated_mul_steps : Generated.qmMulStep = qmMulStep ∧ Generated.bqmMulStep = bqmMulStep := by
+  constructor
+  · funext u v acc
+    simp only [Generated.qmMulStep, qmMulStep]
+    split
+    · cases u.info.vt <;> simp
+    · rfl
+  · funext s u v acc
+    rfl
+
+
+/-- **the comparison methods of the source are the modelled ones** (`cmpVals`): `BinaryQuadraticModel` and `QuadraticModel`
+    build `Eq/Ge/Le(self, other)` — left-hand side the model itself, sense of the method — exactly for a Number operand;
+    `__ge__`/`__le__` return NotImplemented otherwise (TypeError after Python has tried both sides), `__eq__` falls back on
+    `is_equal` (BQM) or NotImplemented → identity (QM), i.e. a bool; the expression views define none of them -/
+theorem generated_comparisons :
+    Generated.comparisons =
+      [("BQM", "__eq__", "Eq", "is_equal"), ("BQM", "__ge__", "Ge", "NotImplemented"), ("BQM", "__le__", "Le", "NotImplemented"),
+       ("QM", "__eq__", "Eq", "NotImplemented"), ("QM", "__ge__", "Ge", "NotImplemented"), ("QM", "__le__", "Le", "NotImplemented")] ∧
+    (∀ s m q, cmpVals s (.mdl m) (.num q) = .ok (some ⟨m, s, q⟩)) ∧
+    (∀ s m q, cmpVals s (.num q) (.mdl m) = .ok (some ⟨m, s.flip, q⟩)) ∧
+    (∀ s o m q, cmpVals s (.view o m) (.num q) = if s = .eq then .ok none else .error .type) :=
+  ⟨rfl, fun _ _ _ => rfl, fun _ _ _ => rfl, fun _ _ _ _ => rfl⟩
+
+
+/-- **energies of the source's own operator bodies** (no `mAdd`/`mSub` in between): run ANY generated form of `+`/`+=`
+    (every pair of classes BQM / QM / expression view, same or different vartypes, promoting or not, reflected or not),
+    of `-`/`-=`, of `± q`, `q −`, `* q`, `q *`, `*= q`, unary `-`, `/ q`, `/= q` on two operand objects `x`, `y`; if it returns,
+    the object it returns (for the mutating in-place forms: the left operand) has, at EVERY sample `s`, the energy
+    `x(s) + y(s)`, `x(s) − y(s)`, `x(s) + q`, `x(s) − q`, `q − x(s)`, `q·x(s)`, `−x(s)`, `x(s)/q` respectively.
+    (Products are the subject of `mul_linear_eval` / `generated_mul_steps`; that nothing else in the store changes is
+    `generated_operands_unchanged` / `generated_inplace_touches_left_only`.) -/
+theorem generated_energy (x y : Model) (q : Rat) (s : Label → Rat) :
+    (∀ pr ∈ Generated.addForms q, ∀ h', exec [x, y] pr.1 = .ok h' → (h'[pr.2]?).map (·.eval s) = some (x.eval s + y.eval s)) ∧
+    (∀ pr ∈ Generated.subForms q, ∀ h', exec [x, y] pr.1 = .ok h' → (h'[pr.2]?).map (·.eval s) = some (x.eval s - y.eval s)) ∧
+    (∀ pr ∈ Generated.addNumForms q, ∀ h', exec [x, y] pr.1 = .ok h' → (h'[pr.2]?).map (·.eval s) = some (x.eval s + q)) ∧
+    (∀ pr ∈ Generated.subNumForms q, ∀ h', exec [x, y] pr.1 = .ok h' → (h'[pr.2]?).map (·.eval s) = some (x.eval s - q)) ∧
+    (∀ pr ∈ Generated.rsubNumForms q, ∀ h', exec [x, y] pr.1 = .ok h' → (h'[pr.2]?).map (·.eval s) = some (q - x.eval s)) ∧
+    (∀ pr ∈ Generated.scaleForms q, ∀ h', exec [x, y] pr.1 = .ok h' → (h'[pr.2]?).map (·.eval s) = some (q * x.eval s)) ∧
+    (∀ pr ∈ Generated.negForms q, ∀ h', exec [x, y] pr.1 = .ok h' → (h'[pr.2]?).map (·.eval s) = some (- x.eval s)) ∧
+    (∀ pr ∈ Generated.divForms q, ∀ h', exec [x, y] pr.1 = .ok h' → (h'[pr.2]?).map (·.eval s) = some (x.eval s / q)) :=
+  ⟨forms_energy _ _ _ _ (addForms_E _ _ q) x y s rfl rfl, forms_energy _ _ _ _ (subForms_E _ _ q) x y s rfl rfl,
+   forms_energy _ _ _ _ (addNumForms_E _ _ q) x y s rfl rfl, forms_energy _ _ _ _ (subNumForms_E _ _ q) x y s rfl rfl,
+   forms_energy _ _ _ _ (rsubNumForms_E _ _ q) x y s rfl rfl, forms_energy _ _ _ _ (scaleForms_E _ _ q) x y s rfl rfl,
+   forms_energy _ _ _ _ (negForms_E _ _ q) x y s rfl rfl, forms_energy _ _ _ _ (divForms_E _ _ q) x y s rfl rfl⟩
+
+/-- non-vacuity: the generated `Spin + Binary` (promoting `+`) does return on two concrete operands, with the sum's energy -/
+example :
+    (match exec [⟨false, .spin, [⟨.str "s", bqmInfo .spin, 2⟩], [], 1⟩, ⟨false, .binary, [⟨.str "x", bqmInfo .binary, 3⟩], [], 0⟩]
+       (Generated.bqm_add_bqm_differ 0 1 0 2) with
+     | .ok h' => (h'[Generated.bqm_add_bqm_differResult 0 1 2]?).map (·.eval fun _ => 1) | .error _ => none) = some (6 : Rat) := by
+  decide +kernel
 
 end C06
